@@ -26,6 +26,7 @@ package main
 
 import (
 	"fmt"
+	"strconv"
 	"strings"
 )
 
@@ -52,15 +53,21 @@ func (h *H) probeSees(sn *node, ev string) {
 		if sn.outstanding != 0 {
 			bad = append(bad, fmt.Sprintf("%d tasks outstanding", sn.outstanding))
 		}
+		var kf []string
 		for _, k := range kids {
 			h.mu.Lock()
-			open := k.registered && !lastIs(k.seq, "afterClose")
+			open := !lastIs(k.seq, "afterClose")
+			reg := k.registered
 			h.mu.Unlock()
-			if open {
+			if open && reg {
 				bad = append(bad, fmt.Sprintf("child %d not closed", k.id))
+			} else if open {
+				// the child was created when this scope was already done and never signed on
+				kf = append(kf, strconv.Itoa(k.id))
 			}
 		}
 		sn.waitBad = strings.Join(bad, ", ")
+		sn.kf1 = strings.Join(kf, ",")
 	}
 }
 
@@ -71,6 +78,12 @@ const (
 
 // oracleClosed runs when a Close has returned.
 func (h *H) oracleClosed(n *node, r closeRes) {
+	if !n.probed {
+		return
+	}
+	if n.kf1 != "" {
+		h.kf1++
+	}
 	h.mu.Lock()
 	seq := strings.Join(n.seq, ",")
 	h.mu.Unlock()
@@ -187,6 +200,9 @@ func isSubseq(sub, full []string) bool {
 // oracleFinish runs at the end of a history (after the final settle).
 func (h *H) oracleFinish() {
 	for _, n := range h.nodes {
+		if !n.probed {
+			continue
+		}
 		seq := strings.Join(n.seq, ",")
 		switch {
 		case !n.started:
@@ -212,6 +228,9 @@ func (h *H) oracleFinish() {
 		}
 	}
 	for k, evs := range seen {
+		if !h.nodes[k.src].probed {
+			continue
+		}
 		if !isSubseq(evs, h.nodes[k.src].seq) {
 			h.fail("listener", fmt.Sprintf("listener %d saw [%s] of scope %d which fired [%s]", k.lid,
 				strings.Join(evs, ","), k.src, strings.Join(h.nodes[k.src].seq, ",")))
